@@ -13,9 +13,11 @@ import sys
 import time
 
 ID = sys.argv[2]
-checks = sys.argv[3:] or [ID]
-src = "/tmp/seeded_out/%s" % ID
-wt = "/tmp/wt/%s" % ID
+PROP = ID[:3]                       # C01b -> property C01 (second independent change for the same property)
+checks = sys.argv[3:] or [PROP]
+rnd = "2" if len(ID) > 3 else ""
+src = "/tmp/seeded_out%s/%s" % (rnd, ID)
+wt = "/tmp/wt%s/%s" % (rnd, ID)
 dst = "/verif/seeded/%s" % ID
 
 
@@ -24,7 +26,7 @@ def sh(cmd, cwd=None, timeout=3600):
     return p.returncode, p.stdout
 
 
-meta = {"property": ID, "ran": []}
+meta = {"property": PROP, "seed": ID, "ran": []}
 patch = os.path.join(src, "patch.diff")
 demo_rs = os.path.join(src, "demo_test.rs")
 demo_sh = os.path.join(src, "demo.sh")
